@@ -229,8 +229,9 @@ def injective(M):
 
 @spec
 def enough_values(P, category, column, values):
-    """len(values) >= number of different values of the item (stated for every prefix of the rows; ndist is monotone in n, so this
-    is the same as the statement for all rows)"""
+    """the alphabet is not exhausted: len(values) >= number of different values of the item (stated for every prefix of the rows;
+    ndist is monotone in n, so this is the same as the statement for all rows).  True when the category or the item is missing.
+    Its negation is exactly the condition under which replace_value raises IndexError."""
     return forall(lambda k, i, n: implies(cat_at(P, k, category) and item_at(P, k, i, column) and 0 <= n and n <= nrows(P, 0, k),
                                           ndist(P, k, i, n) <= len(values)), pats=["ndist(P, k, i, n)"])
 
@@ -335,6 +336,12 @@ def first_seen_upto(P, kc, ic, n, values, M):
     return (len(M) == ndist(P, kc, ic, n)
             and forall(lambda q: implies(0 <= q and q < n and not seen_before(P, kc, ic, q),
                                          M[cell(P, 0, kc, q, ic)] == char(values, ndist(P, kc, ic, q)))))
+
+
+@spec
+def prefix_ok(P, kc, ic, n, values):
+    """no prefix of the first n rows has more different values than the alphabet has characters"""
+    return forall(lambda m: implies(0 <= m and m <= n, ndist(P, kc, ic, m) <= len(values)), pats=["ndist(P, kc, ic, m)"])
 
 
 @spec
@@ -825,9 +832,13 @@ class replace_value:
     nonnull_params = True
     ghost_returns = {"W": "int"}
     requires = ["wellformed(parse(file_content))",
-                "enough_values(parse(file_content), category, column, values)"]
+                "distinct_chars(values)"]
     returns = "tuple[str,dict[str,str]]"
-    raises = []
+    # exhausted alphabet: IndexError exactly when some prefix of the rows has more different values than `values` has characters
+    # (both directions are obligations: raises.IndexError.only-when at the raising statement, raises.IndexError.whenever at
+    # every normal exit); no requires about the length of `values`
+    raises = {"IndexError": "not enough_values(parse(file_content), category, column, values)"}
+    raises_exact = ["IndexError"]
     modifies = GHOST_FIELDS + LIST_FIELDS
     locals = {"transformed": "list[Row]", "mapping": "dict[str,str]"}
     ghost_entry = ["let W = 0 - 1", "let P = parse(file_content)", "use ndist_definition(P)", "use firstpos_definition(P)"]
@@ -841,12 +852,12 @@ class replace_value:
         "implies(applies(parse(file_content), category, column), repl_target(parse(file_content), W, category, column, result[1]))",
         "implies(applies(parse(file_content), category, column), repl_domain(parse(file_content), category, column, result[1]))",
         "implies(applies(parse(file_content), category, column), first_seen(parse(file_content), category, column, values, result[1]))",
-        "implies(applies(parse(file_content), category, column) and distinct_chars(values), injective(result[1]))",
+        "implies(applies(parse(file_content), category, column), injective(result[1]))",
     ]
     ensures_labels = {0: "missing-category-or-item-returns-the-input-and-no-mapping", 1: "result-is-the-written-document",
                       2: "blocks-and-categories-kept", 3: "other-categories-untouched", 4: "items-and-row-shape-kept",
                       5: "other-cells-kept", 6: "target-is-image-under-returned-mapping", 7: "mapping-keys-are-the-old-values",
-                      8: "mapping-is-first-seen", 9: "mapping-injective-for-distinct-characters"}
+                      8: "mapping-is-first-seen", 9: "mapping-injective"}
     loops = {0: {"index": "n", "inv": [
         "lists_kept(attributes) and attributes.items == A0",
         "rows_kept(C, n)",
@@ -855,8 +866,9 @@ class replace_value:
         "keys_seen(P, kc, ic, n, mapping)",
         "first_seen_upto(P, kc, ic, n, values, mapping)",
         "images_in_prefix(values, mapping)",
-        "implies(distinct_chars(values), injective(mapping))",
+        "injective(mapping)",
         "collected(C, n, transformed)",
+        "prefix_ok(P, kc, ic, n, values)",
     ]}}
     ghost = [
         {"when": "after", "at": "with tempfile.NamedTemporaryFile(mode='wt')", "label": "parsed", "do": ["assert names_are(data, P)"]},
@@ -878,9 +890,7 @@ class replace_value:
                 "assert implies(seen_before(P, kc, ic, n), row[i] in mapping)"]},
         {"when": "before", "at": "mapping[row[i]] =", "loop": 0, "label": "new-value",
          "do": ["assert ndist(P, kc, ic, n + 1) == ndist(P, kc, ic, n) + 1",
-                "assert 0 <= n + 1 and n + 1 <= nrows(P, 0, kc)",
-                "assert ndist(P, kc, ic, n + 1) <= len(values)",
-                "assert len(mapping) < len(values)"]},
+                "assert 0 <= n + 1 and n + 1 <= nrows(P, 0, kc)"]},
         {"when": "before", "at": "transformed.append(row)", "loop": 0, "label": "counted",
          "do": ["assert len(mapping) == ndist(P, kc, ic, n + 1)"]},
     ]
@@ -925,8 +935,9 @@ class main:
     callee_variants = {"copy_from_to": "cli", "replace_value": "cli"}
     requires = ["wellformed(parse(file_text(cli_input())))",
                 "cli_has_category()",
-                "implies(replace_mode(), enough_values(parse(file_text(cli_input())), cli_category(), cli_replace(), cli_values()))"]
-    raises = ["SystemExit", "OSError"]
+                "implies(replace_mode(), distinct_chars(cli_values()))"]
+    # IndexError: replace mode with an exhausted alphabet (propagated from replace_value, nothing is written then)
+    raises = ["SystemExit", "OSError", "IndexError"]
     modifies = GHOST_FIELDS + LIST_FIELDS
     ghost_entry = ["let wrote = False", "let out_path = ''", "let out_text = ''",
                    "let copy_from_to_called = False", "let copy_from_to_R = ''", "let replace_value_called = False", "let replace_value_R = ''"]
